@@ -37,6 +37,10 @@ Inductive case :=
 (* cmd + concatenation of (space + quote(a)) over args, executed *)
 | RoundTrip (kt : bool) (cmd : str) (args : list str) (impl_line : str)
             (impl_call : option (str * list str)) (impl : obs)
+(* one CommandManager: parse_partial(line) snapshot (value, is Space) before and after driving the
+   real console CommandEdit (typing, Tab, Shift-Tab), then execute(line) on the same manager *)
+| Session (kt : bool) (line : str) (pp_before pp_after : list (str * bool))
+          (impl_call : option (str * list str)) (impl : obs)
 (* _StrType.parse(s): None = ValueError *)
 | StrParse (s : str) (impl : option str).
 
@@ -63,6 +67,9 @@ Definition spaces_all : list N :=
   rev (snd (N.iter 1114112 (fun st => let c := fst st in
                  (c + 1, if is_uspace c then c :: snd st else snd st)) (0, []))).
 
+Definition parts_eqb : list (str * bool) -> list (str * bool) -> bool :=
+  list_eqb (pair_eqb str_eqb Bool.eqb).
+
 Definition check_case (c : case) : bool :=
   match c with
   | Lex kt s impl =>
@@ -80,6 +87,13 @@ Definition check_case (c : case) : bool :=
   | RoundTrip kt cmd args line call o =>
       str_eqb (cmd ++ flat_map (fun a => c_sp :: quote a) args) line
       && call_matches (execute_call kt line) call && outcome_matches (execute kt commands line) o
+  | Session kt line pb pa call o =>
+      match run_session kt commands [SParse line; SParse line; SExec line] with
+      | [RParse (PPOk p1); RParse (PPOk p2); RExec r] =>
+          parts_eqb p1 pb && parts_eqb p2 pa
+          && call_matches (execute_call kt line) call && outcome_matches r o
+      | _ => false
+      end
   | StrParse s r =>
       match str_parse s, r with
       | ParseOk v, Some v' => str_eqb v v'
